@@ -43,6 +43,9 @@ Cache.vos Cache.vok Cache.required_vos: Cache.v Base.vos Fields.vos SrcFacts.vos
 Sim.vo Sim.glob Sim.v.beautified Sim.required_vo: Sim.v Base.vo Fields.vo SrcFacts.vo Msg.vo
 Sim.vio: Sim.v Base.vio Fields.vio SrcFacts.vio Msg.vio
 Sim.vos Sim.vok Sim.required_vos: Sim.v Base.vos Fields.vos SrcFacts.vos Msg.vos
+SimProofs.vo SimProofs.glob SimProofs.v.beautified SimProofs.required_vo: SimProofs.v Base.vo Sim.vo
+SimProofs.vio: SimProofs.v Base.vio Sim.vio
+SimProofs.vos SimProofs.vok SimProofs.required_vos: SimProofs.v Base.vos Sim.vos
 Prober.vo Prober.glob Prober.v.beautified Prober.required_vo: Prober.v Base.vo Fields.vo SrcFacts.vo Msg.vo SrcDecisions.vo Sim.vo
 Prober.vio: Prober.v Base.vio Fields.vio SrcFacts.vio Msg.vio SrcDecisions.vio Sim.vio
 Prober.vos Prober.vok Prober.required_vos: Prober.v Base.vos Fields.vos SrcFacts.vos Msg.vos SrcDecisions.vos Sim.vos
@@ -91,6 +94,9 @@ CacheSpec.vos CacheSpec.vok CacheSpec.required_vos: CacheSpec.v Base.vos Fields.
 CacheProofs.vo CacheProofs.glob CacheProofs.v.beautified CacheProofs.required_vo: CacheProofs.v Base.vo Fields.vo SrcFacts.vo Msg.vo SrcDecisions.vo Cache.vo CacheSpec.vo
 CacheProofs.vio: CacheProofs.v Base.vio Fields.vio SrcFacts.vio Msg.vio SrcDecisions.vio Cache.vio CacheSpec.vio
 CacheProofs.vos CacheProofs.vok CacheProofs.required_vos: CacheProofs.v Base.vos Fields.vos SrcFacts.vos Msg.vos SrcDecisions.vos Cache.vos CacheSpec.vos
+ResolverInv.vo ResolverInv.glob ResolverInv.v.beautified ResolverInv.required_vo: ResolverInv.v Base.vo Fields.vo SrcFacts.vo Msg.vo SrcDecisions.vo Cache.vo CacheSpec.vo CacheProofs.vo Sim.vo SimProofs.vo Prober.vo Resolver.vo ResolverProofs.vo
+ResolverInv.vio: ResolverInv.v Base.vio Fields.vio SrcFacts.vio Msg.vio SrcDecisions.vio Cache.vio CacheSpec.vio CacheProofs.vio Sim.vio SimProofs.vio Prober.vio Resolver.vio ResolverProofs.vio
+ResolverInv.vos ResolverInv.vok ResolverInv.required_vos: ResolverInv.v Base.vos Fields.vos SrcFacts.vos Msg.vos SrcDecisions.vos Cache.vos CacheSpec.vos CacheProofs.vos Sim.vos SimProofs.vos Prober.vos Resolver.vos ResolverProofs.vos
 Properties_C05.vo Properties_C05.glob Properties_C05.v.beautified Properties_C05.required_vo: Properties_C05.v Base.vo Fields.vo SrcFacts.vo Msg.vo SrcDecisions.vo Cache.vo CacheSpec.vo CacheProofs.vo
 Properties_C05.vio: Properties_C05.v Base.vio Fields.vio SrcFacts.vio Msg.vio SrcDecisions.vio Cache.vio CacheSpec.vio CacheProofs.vio
 Properties_C05.vos Properties_C05.vok Properties_C05.required_vos: Properties_C05.v Base.vos Fields.vos SrcFacts.vos Msg.vos SrcDecisions.vos Cache.vos CacheSpec.vos CacheProofs.vos
@@ -136,9 +142,9 @@ Properties_C11.vos Properties_C11.vok Properties_C11.required_vos: Properties_C1
 Properties_C10.vo Properties_C10.glob Properties_C10.v.beautified Properties_C10.required_vo: Properties_C10.v Base.vo Fields.vo SrcFacts.vo Msg.vo SrcDecisions.vo Sim.vo Prober.vo Hostname.vo Provider.vo ProviderSpec.vo ProviderProofs.vo
 Properties_C10.vio: Properties_C10.v Base.vio Fields.vio SrcFacts.vio Msg.vio SrcDecisions.vio Sim.vio Prober.vio Hostname.vio Provider.vio ProviderSpec.vio ProviderProofs.vio
 Properties_C10.vos Properties_C10.vok Properties_C10.required_vos: Properties_C10.v Base.vos Fields.vos SrcFacts.vos Msg.vos SrcDecisions.vos Sim.vos Prober.vos Hostname.vos Provider.vos ProviderSpec.vos ProviderProofs.vos
-Properties_C16.vo Properties_C16.glob Properties_C16.v.beautified Properties_C16.required_vo: Properties_C16.v Base.vo Fields.vo SrcFacts.vo Msg.vo SrcDecisions.vo Cache.vo Sim.vo Prober.vo Resolver.vo ResolverProofs.vo
-Properties_C16.vio: Properties_C16.v Base.vio Fields.vio SrcFacts.vio Msg.vio SrcDecisions.vio Cache.vio Sim.vio Prober.vio Resolver.vio ResolverProofs.vio
-Properties_C16.vos Properties_C16.vok Properties_C16.required_vos: Properties_C16.v Base.vos Fields.vos SrcFacts.vos Msg.vos SrcDecisions.vos Cache.vos Sim.vos Prober.vos Resolver.vos ResolverProofs.vos
+Properties_C16.vo Properties_C16.glob Properties_C16.v.beautified Properties_C16.required_vo: Properties_C16.v Base.vo Fields.vo SrcFacts.vo Msg.vo SrcDecisions.vo Cache.vo Sim.vo SimProofs.vo Prober.vo Resolver.vo ResolverProofs.vo ResolverInv.vo
+Properties_C16.vio: Properties_C16.v Base.vio Fields.vio SrcFacts.vio Msg.vio SrcDecisions.vio Cache.vio Sim.vio SimProofs.vio Prober.vio Resolver.vio ResolverProofs.vio ResolverInv.vio
+Properties_C16.vos Properties_C16.vok Properties_C16.required_vos: Properties_C16.v Base.vos Fields.vos SrcFacts.vos Msg.vos SrcDecisions.vos Cache.vos Sim.vos SimProofs.vos Prober.vos Resolver.vos ResolverProofs.vos ResolverInv.vos
 Properties_C17.vo Properties_C17.glob Properties_C17.v.beautified Properties_C17.required_vo: Properties_C17.v Base.vo Fields.vo SrcFacts.vo Msg.vo SrcDecisions.vo Sim.vo Hostname.vo HostnameProofs.vo
 Properties_C17.vio: Properties_C17.v Base.vio Fields.vio SrcFacts.vio Msg.vio SrcDecisions.vio Sim.vio Hostname.vio HostnameProofs.vio
 Properties_C17.vos Properties_C17.vok Properties_C17.required_vos: Properties_C17.v Base.vos Fields.vos SrcFacts.vos Msg.vos SrcDecisions.vos Sim.vos Hostname.vos HostnameProofs.vos
